@@ -5,6 +5,7 @@ import operator
 import random
 import warnings
 from functools import reduce
+from math import prod
 
 import numpy as np
 from scipy.special import comb
@@ -567,9 +568,10 @@ def _index_to_edge_partition(index, partition_sizes, m):
 
     """
     try:
-        return [
-            int(index // np.prod(partition_sizes[r + 1 :]) % partition_sizes[r])
-            for r in range(m)
-        ]
+        # exact integer arithmetic: np.prod returns the float 1.0 for the empty
+        # tail and a fixed-width integer otherwise, which loses the low bits of
+        # indices above 2**53 (two indices then decode to the same tuple).
+        sizes = [int(s) for s in partition_sizes]
+        return [int(index) // prod(sizes[r + 1 :]) % sizes[r] for r in range(m)]
     except KeyError:
         raise Exception("Invalid parameters")
